@@ -218,7 +218,14 @@ func (aaLogs AppArmorLogs) String() string {
 			}
 		}
 
-		for key, value := range log {
+		// The remaining keys, in a reproducible order
+		others := make([]string, 0, len(log))
+		for key := range log {
+			others = append(others, key)
+		}
+		slices.Sort(others)
+		for _, key := range others {
+			value := log[key]
 			if slices.Contains(ignore, key) {
 				continue
 			}
